@@ -43,6 +43,8 @@ func runC01(c *Ctx, r *Report) {
 	importRules(c, r, "C08", []string{"R-C08.2"}, "R-C01.13")
 	r.Doc("R-C01.14", "a refused append or merge leaves the entry index, the predecessor index and the heads untouched (adopted from C02: a phantom link makes the next merge drop the replica's own heads, and the replicas no longer hold the same entries)")
 	importRules(c, r, "C02", []string{"R-C02.7"}, "R-C01.14")
+	r.Doc("R-C01.15", "the clock of an entry a log holds is never written (adopted from C05: entry objects are shared by the replicas of a process, so a clock raised in place makes the in-memory replica linearise differently from one that loaded the same entries, and the entry stops verifying)")
+	importRules(c, r, "C05", []string{"R-C05.1"}, "R-C01.15")
 	r.Doc("R-C01.10", "entries are filed in the entry index under their own hash and in the predecessor index under their own predecessor links (a link index fed from references, or from another list, makes head filtering depend on merge order)")
 	indexKeys(c, r, "R-C01.10")
 	join := p.FuncI("", "IPFSLog", "Join")
